@@ -32,7 +32,7 @@ def _fam():
     return m
 
 
-def run(c):
+def run_english(c):
     fam = _fam()
     d, res = fam.family(c)
     A, C = res["A"], res["C"]
@@ -63,3 +63,15 @@ def run(c):
         assumptions=["savings rewards and vault interest are float computations of the code: taken from the log and constrained by the laws",
                      "generation-1 auction.BeginBlocker is called directly (it is not wired in app.go)",
                      "auction behaviours start from net fees seeded through the collector keeper together with the coins (root state only)"])
+
+
+def run(c):
+    # locker/collector/auction books (english family) + the vault / liquidation / Dutch-auction side of the collector book
+    # (harbor family log: C13_CollectorDelta, C13_NetFeesNonNeg, C13_CollectorBacked on every recorded step)
+    import sys
+    sys.path.insert(0, os.path.dirname(os.path.abspath(__file__)))
+    import _harbor
+    c.defer = True
+    run_english(c)
+    _harbor.run(c, ['okVaultOps', 'closingBids', 'seizures'])
+    return c.finish_all(["english", "harbor"])
